@@ -585,7 +585,13 @@ def b_sorted(interp, args, kwargs, node):
 def b_isinstance(interp, args, kwargs, node):
     v, t = args
     if isinstance(t, tuple):
-        return any(isinstance_one(interp, v, x, node) for x in t)
+        rs = [isinstance_one(interp, v, x, node) for x in t]
+        if any(r is True for r in rs):
+            return True
+        terms = [r.t for r in rs if isinstance(r, SBool)]
+        if terms:
+            return mk_bool(z3.Or(*terms))
+        return False
     return isinstance_one(interp, v, t, node)
 
 
@@ -792,6 +798,9 @@ def b_type(interp, args, kwargs, node):
     v = args[0]
     if isinstance(v, SObj):
         return v.cls
+    if isinstance(v, sym.SOpaque):
+        from .heapmodel import STypeTag, VTYPE, to_v
+        return STypeTag(VTYPE(to_v(interp, v)))
     names = {'bool': (SBool, bool), 'int': (SInt, int), 'float': (SFloat, float), 'str': (SStr, str)}
     for nm in ('bool', 'int', 'float', 'str'):
         if isinstance(v, names[nm]):
